@@ -8,7 +8,7 @@
     Agreement predicates: Spec/Btor2Agree.v.  Only statements, [exact lemma] proofs,
     [Print Assumptions], examples. *)
 From Coq Require Import List String NArith Bool.
-From Patronus Require Import SysClosed Btor2Parse Btor2Sem Btor2Agree Btor2Witness Btor2SemWitness Btor2Refine Btor2NoCrash Btor2Sound Btor2Fix Btor2SoundFix.
+From Patronus Require Import SysClosed Btor2Parse Btor2Sem Btor2Agree Btor2Witness Btor2SemWitness Btor2Refine Btor2NoCrash Btor2Sound Btor2Fix Btor2SoundFix Btor2FinalSpec Btor2Final Btor2FinalInputs.
 Import ListNotations.
 Open Scope N_scope.
 
@@ -158,5 +158,126 @@ Example C08_example :
       | B2Err _ => false
       end
   | _ => false
+  end = true.
+Proof. vm_compute. reflexivity. Qed.
+
+(** ** THE FINAL SYSTEM.  [parse_str] returns [parse_lines_v v dbg ls = demote (rename_sys ren raw)]: after the last
+    line [improve_state_names] renames state symbols that carry a later name, and every state without init and
+    next is appended to the inputs and removed from the states (parse.rs:113-143).  The theorems below are about
+    THAT system, for the reader of /repo ([Fix]) and the prepared [Fix2] ([is_fix v = true]).
+    Definitions: Spec/Btor2FinalSpec.v.
+
+    Environment correspondence ([final_env_agrees rho val fin nin pat]): the interpreter's valuation gives the
+    k-th INPUT line the value [rho] gives to the k-th input of the final system, and the j-th STATE line the
+    value [rho] gives to
+       - input number [nin + #(plain state lines before j)] of the final system if line j has neither init
+         nor next (it was demoted: it is read from the INPUT valuation),
+       - the state symbol number [#(other state lines before j)] otherwise;
+    [(nin, pat) = reader_shape v dbg ls]: the number of input lines and the plain-pattern of the state lines
+    as the reader saw them - the conclusion says they ARE the interpreter's ([m_nin S], [plain_ss]).
+    Conclusion [final_agrees rho fin S]: the final inputs are the input lines followed by the plain state
+    lines, the latter with their declared sorts; the final states are the remaining state lines with their
+    declared sorts and the VALUES of their init and next lines; outputs, bad states and constraints have the
+    sorts and VALUES of the referenced lines, position by position, in every well-formed environment. *)
+Theorem C08_final_system_sound :
+  forall v ls fin nin pat rho val S,
+    is_fix v = true -> env_wf rho ->
+    parse_lines_v v true ls = POk fin ->
+    reader_shape v true ls = Some (nin, pat) ->
+    final_env_agrees rho val fin nin pat ->
+    sem_run val ls = B2Ok S ->
+    m_nin S = nin /\ map plain_ss (m_states S) = pat /\ final_agrees rho fin S.
+Proof. exact final_system_sound. Qed.
+Print Assumptions C08_final_system_sound.
+
+(** inputs get their declared sorts: the k-th input of the final system (k below the number of input lines) has
+    the sort that the sort token of the k-th input line denotes in the interpreter's sort table at that line
+    ([input_sorts val ls], Spec/Btor2FinalSpec.v); demoted and kept states: see [final_agrees] above *)
+Theorem C08_final_input_sorts :
+  forall v ls fin nin pat rho val S,
+    is_fix v = true -> env_wf rho ->
+    parse_lines_v v true ls = POk fin ->
+    reader_shape v true ls = Some (nin, pat) ->
+    final_env_agrees rho val fin nin pat ->
+    sem_run val ls = B2Ok S ->
+    Forall2 (fun e t => type_of e = t) (line_inputs fin nin) (input_sorts val ls).
+Proof. exact final_input_sorts. Qed.
+Print Assumptions C08_final_input_sorts.
+
+(** the same in both build profiles for texts over the supported operators *)
+Theorem C08_final_system_sound_profiles :
+  forall v dbg ls fin nin pat rho val S,
+    is_fix v = true -> forallb supported_line ls = true -> env_wf rho ->
+    parse_lines_v v dbg ls = POk fin ->
+    reader_shape v dbg ls = Some (nin, pat) ->
+    final_env_agrees rho val fin nin pat ->
+    sem_run val ls = B2Ok S ->
+    m_nin S = nin /\ map plain_ss (m_states S) = pat /\ final_agrees rho fin S.
+Proof. exact final_system_sound_profiles. Qed.
+Print Assumptions C08_final_system_sound_profiles.
+
+(** with the valuation induced by an arbitrary environment of the final system (no hypothesis on a valuation) *)
+Theorem C08_final_system_sound_induced :
+  forall v ls fin nin pat rho S,
+    is_fix v = true -> env_wf rho ->
+    parse_lines_v v true ls = POk fin ->
+    reader_shape v true ls = Some (nin, pat) ->
+    sem_run (final_val rho fin nin pat) ls = B2Ok S ->
+    m_nin S = nin /\ map plain_ss (m_states S) = pat /\ final_agrees rho fin S.
+Proof. exact final_system_sound_induced. Qed.
+Print Assumptions C08_final_system_sound_induced.
+
+(** rejection, stated with the final system: a text that the interpreter refuses as ill-sorted, for a zero-width
+    sort or for a non-Boolean bad/constraint ([Fix2]: or for an extension of an array) is never accepted *)
+Theorem C08_final_rejects_ill_formed :
+  forall v ls fin nin pat rho val e,
+    is_fix v = true -> env_wf rho ->
+    parse_lines_v v true ls = POk fin ->
+    reader_shape v true ls = Some (nin, pat) ->
+    final_env_agrees rho val fin nin pat ->
+    sem_run val ls = B2Err e -> strict_err_v v e = false.
+Proof. exact final_rejects_ill_formed. Qed.
+Print Assumptions C08_final_rejects_ill_formed.
+
+(** The post-processing changes no expression except through the symbol renaming: the final system IS
+    [post_process ren raw] (every expression of the raw system with [rename ren] applied, plain states moved
+    behind the inputs, nothing else); [rename ren] replaces symbols by [rename_sym ren] and keeps the rest of
+    the tree (types, well-typedness, symbol occurrences); [rename_sym ren] keeps types, is injective on the
+    declared symbols, and the declared symbols of the final system have pairwise different NAMES.
+    Any text, any reader variant, any build profile. *)
+Theorem C08_final_renaming :
+  forall v dbg ls sy ren,
+    parse_raw_v v dbg ls = POk (sy, ren) ->
+    demote (rename_sys ren sy) = post_process ren sy /\
+    (forall x, is_symbol x = true -> is_symbol (rename_sym ren x) = true /\ type_of (rename_sym ren x) = type_of x) /\
+    (forall e, type_of (rename ren e) = type_of e /\ wt (rename ren e) = wt e /\ syms (rename ren e) = map (rename_sym ren) (syms e)) /\
+    (forall x y, In x (declared sy) -> In y (declared sy) -> rename_sym ren x = rename_sym ren y -> x = y) /\
+    NoDup (map sym_name (declared (demote (rename_sys ren sy)))).
+Proof. exact final_renaming. Qed.
+Print Assumptions C08_final_renaming.
+
+(** Non-vacuity: state [d] (line 4) has neither init nor next, is read by the next function of [s] and by an
+    output (whose label [o] it would take as its name if no later name came), and is renamed through the alias of line 10 (with a [$]); state line 6 is plain and labelled like
+    the input [a] (it becomes [a_0]); state [s] is renamed [better].  The final system has the inputs
+    [a; nice_name; a_0] and the state [better]; the reader's shape is (1, [plain; kept; plain]); the reference
+    interpreter accepts the text under the valuation induced by a concrete environment of the FINAL system. *)
+Definition c08_final_text : string :=
+  text_of ["1 sort bitvec 8"; "2 sort bitvec 1"; "3 input 1 a"; "4 state 1 d"; "5 state 1 s"; "6 state 1 a";
+           "7 add 1 3 4"; "8 next 1 5 7"; "9 output 4 o"; "10 uext 1 4 0 nice$name"; "11 eq 2 5 6"; "12 bad 11";
+           "13 uext 1 5 0 better"; "14 init 1 5 -4"]%string.
+
+Example C08_final_example :
+  match parse_lines_v Fix true (lines_of c08_final_text), reader_shape Fix true (lines_of c08_final_text) with
+  | POk fin, Some (nin, pat) =>
+      match sem_run (final_val c08_rho fin nin pat) (lines_of c08_final_text) with
+      | B2Ok M =>
+          (nin =? 1)%nat && match pat with [true; false; true] => true | _ => false end &&
+          String.eqb (String.concat "," (map sym_name (s_inputs fin))) "a,nice_name,a_0" &&
+          String.eqb (String.concat "," (map (fun s => sym_name (st_sym s)) (s_states fin))) "better" &&
+          (List.length (m_states M) =? 3)%nat && (m_nin M =? 1)%nat &&
+          match input_sorts (final_val c08_rho fin nin pat) (lines_of c08_final_text) with [TBV 8] => true | _ => false end
+      | B2Err _ => false
+      end
+  | _, _ => false
   end = true.
 Proof. vm_compute. reflexivity. Qed.
